@@ -19,7 +19,7 @@ META = {
              "decoded so far when an abstract container has no satisfied child or any container has several, and simply end at a concrete "
              "container with no satisfied child.",
     "trusted": "as C01",
-    "bounds": {"quick": {"templates": {"T4": [9, 10], "T3": [16], "T6": [12], "JPSS_CONTRIVED": [71]}},
+    "bounds": {"quick": {"templates": {"T4": [9, 10], "T3": [16], "T6": [12], "JPSS_CONTRIVED": [71], "O|T4 (ContainerSet in reverse order)": [10], "R|T4 (root renamed; named at load / in the generator call / in a direct parse_ccsds_packet call)": [9, 10]}},
                "thorough": {"templates": {"T4": [8, 9, 10, 11], "T3": [15, 16, 17], "JPSS_CONTRIVED": [71], "JPSS": [71], "T1": [19]}}},
     "stubs": ["as C01"],
     "outside_claim": ["container trees outside the listed templates", "NextContainer / CustomAlgorithm criteria (unsupported by the library)"],
